@@ -179,11 +179,15 @@ func ToCommandLine(wf WireFormat, resolveIds bool) (rule string, err error) {
 	// "-F arch=b64", which is wrong.
 	// This code will print the real value, "aarch64".
 	if fieldIdx, found := existingFields[archField]; found {
+		op, found := reverseOperatorsTable[r.fieldFlags[fieldIdx]]
+		if !found {
+			return "", fmt.Errorf("field operator %x not found", r.fieldFlags[fieldIdx])
+		}
 		r.arch, err = getDisplayArch(r.values[fieldIdx])
 		if err != nil {
 			return "", err
 		}
-		arguments = append(arguments, "-F", fmt.Sprintf("arch=%s", r.arch))
+		arguments = append(arguments, "-F", fmt.Sprintf("arch%s%s", op, r.arch))
 	}
 
 	// Parse syscalls
